@@ -86,6 +86,8 @@ class Accum(object):
         if kind == "decimal":
             import decimal
             raise ValueError(decimal.Decimal("1.5"))   # content that marshal cannot carry
+        if kind == "registered":
+            raise RegisteredError("quota", 3)          # travels in the format the application registered for it
         raise ZeroDivisionError("division by zero")
 
     @server.expose
@@ -96,6 +98,12 @@ class Accum(object):
     def tags(self):
         self.log.append(("tags",))
         return [{"t%d" % self.total, "u"}, (self.total, -1)]     # containers that some serializers map to others
+
+    @server.expose
+    def report(self):
+        """returns an exception object as an ordinary value (a validation result): nothing failed"""
+        self.log.append(("report",))
+        return ValueError("reported, not raised", self.total)
 
     @server.expose
     def seal(self):
@@ -121,6 +129,20 @@ class Accum(object):
 
 class CustomError(Exception):
     """an exception class the receiving side does not know (not a builtin, not a Pyro5 error)"""
+
+
+class RegisteredError(Exception):
+    """an application exception that travels through converters the application registered itself (see register_converters)"""
+
+
+def register_converters(on):
+    from Pyro5.serializers import SerializerBase
+    if on:
+        SerializerBase.register_class_to_dict(RegisteredError, lambda x: {"__class__": "vf-registered-error", "what": list(x.args)})
+        SerializerBase.register_dict_to_class("vf-registered-error", lambda name, d: RegisteredError(*d["what"]))
+    else:
+        SerializerBase.unregister_class_to_dict(RegisteredError)
+        SerializerBase.unregister_dict_to_class("vf-registered-error")
 
 
 class Unserialisable(object):
